@@ -28,7 +28,8 @@ def PercentageString(value):
         if work.endswith("%"):
             try:
                 percent = float(work[:-1])
-                if percent < 0:
+                # (written this way so that 'nan%' is refused too: nan < 0 is False)
+                if not percent >= 0:
                     raise Invalid("Cannot have a negative percentage")
                 return "{percent}%".format(percent=percent)
             except Invalid:
